@@ -50,6 +50,35 @@ def fnArgs (s : Sweep) : List String := s.caseArgs ++ s.comboArgs
 
 end Sweep
 
+/-! ### `parse_combos`: spellings of a grid, duplicate values rejected -/
+
+/-- the spellings `combo_runner` accepts for a grid -/
+inductive Spelling where
+  | dict (items : List (String × List Nat))        -- `{'a': [...], 'b': [...]}`
+  | pairs (items : List (String × List Nat))       -- `[('a', [...]), ('b', [...])]`
+  | single (arg : String) (vals : List Nat)        -- `('a', [...])`
+deriving Repr
+
+inductive ParseErr where
+  | duplicate (arg : String) (v : Nat)
+deriving Repr, DecidableEq
+
+def firstDup : List Nat → Option Nat
+  | [] => none
+  | x :: xs => if xs.contains x then
+      -- Python reports the value when it is seen the second time; which one is reported does not matter here
+      some x else firstDup xs
+
+/-- `parse_combos`: normalise the spelling, then `check_for_duplicates` on every argument -/
+def parseCombos (sp : Spelling) : Except ParseErr (List (String × List Nat)) :=
+  let items := match sp with
+    | .dict items => items
+    | .pairs items => items
+    | .single a vs => [(a, vs)]
+  match items.findSome? (fun (a, vs) => (firstDup vs).map fun v => (a, v)) with
+  | some (a, v) => .error (.duplicate a v)
+  | none => .ok items
+
 /-- how the settings are executed. `σ`: the permutation `random.shuffle` produced (position `j` of the shuffled
 list holds original index `σ[j]`); `π`: the order in which an executor happened to *run* the submitted calls
 (it only affects the call log — results are collected in submission order). -/
